@@ -162,13 +162,30 @@ func changeTree(r *rand.Rand, sw *xcodec.SpecWriter, c *osm.Change, w *wire.Writ
 
 func decodeBoth(d *doc) {
 	d.v2 = newOf(d.typ)
-	d.uerr = xml.Unmarshal(d.text, d.v2)
-	sc := osmxml.New(context.Background(), bytes.NewReader(d.text))
-	for sc.Scan() {
-		d.scanned = append(d.scanned, sc.Object())
-	}
-	d.serr = sc.Err()
-	sc.Close()
+	// a panic inside the implementation is an observation, not a harness crash
+	func() {
+		defer func() {
+			if r := recover(); r != nil {
+				d.uerr = fmt.Errorf("panic: %v", r)
+				d.class = "panic"
+			}
+		}()
+		d.uerr = xml.Unmarshal(d.text, d.v2)
+	}()
+	func() {
+		defer func() {
+			if r := recover(); r != nil {
+				d.serr = fmt.Errorf("panic: %v", r)
+				d.class = "panic"
+			}
+		}()
+		sc := osmxml.New(context.Background(), bytes.NewReader(d.text))
+		for sc.Scan() {
+			d.scanned = append(d.scanned, sc.Object())
+		}
+		d.serr = sc.Err()
+		sc.Close()
+	}()
 }
 
 func kindOf(v reflect.Value) string {
@@ -317,6 +334,17 @@ func main() {
 	cd := &osm.Diff{Actions: osm.Actions{{Type: osm.ActionCreate, OSM: &osm.OSM{Nodes: osm.Nodes{n1}}},
 		{Type: osm.ActionModify, Old: &osm.OSM{Ways: osm.Ways{w1}}, New: &osm.OSM{Ways: osm.Ways{w1}}}}}
 	mk("Diff", cd, always.Diff(cd), "corpus-diff", true, nil)
+
+	for _, id := range []int64{-1, 0, 1 << 40, 1 << 44, 1 << 45, 9223372036854775807} {
+		dd := &osm.Diff{Actions: osm.Actions{
+			{Type: osm.ActionCreate, OSM: &osm.OSM{Nodes: osm.Nodes{{ID: osm.NodeID(id), Visible: true}}}},
+			{Type: osm.ActionCreate, OSM: &osm.OSM{Ways: osm.Ways{{ID: osm.WayID(id)}}}},
+			{Type: osm.ActionCreate, OSM: &osm.OSM{Relations: osm.Relations{{ID: osm.RelationID(id)}}}},
+			{Type: osm.ActionDelete, Old: &osm.OSM{Ways: osm.Ways{{ID: osm.WayID(id)}}}, New: &osm.OSM{Ways: osm.Ways{{ID: osm.WayID(id), Version: 2}}}}}}
+		mk("Diff", dd, always.Diff(dd), "corpus-diff-id-range", true, nil)
+		ch := &osm.Change{Create: &osm.OSM{Nodes: osm.Nodes{{ID: osm.NodeID(id)}}}, Modify: &osm.OSM{Ways: osm.Ways{{ID: osm.WayID(id)}}}, Delete: &osm.OSM{Relations: osm.Relations{{ID: osm.RelationID(id)}}}}
+		mk("Change", ch, changeTree(rng, always, ch, w), "corpus-change-id-range", true, nil)
+	}
 
 	plan := []struct {
 		typ   string
